@@ -428,6 +428,16 @@ def run_part(tier, work, mir):
                          "read_plans": "whole / byte-wise / split at a random offset (native side); the engine's BufReader is a model",
                          "reference_vs_native_disagreements": refbad[:3]}
     if mism:
+        # same bytes, different read plans, different native results = the real parser depends on read segmentation (a violation observed
+        # natively; the engine's BufReader model cannot see it): distinguish that from a translator problem
+        for d, p_, e, n in zip(reqs, plans, eng, nat):
+            if e != n and not e.startswith("ENGINE-ERROR") and p_ != 0:
+                n0 = mengine.native_eval(exe, ["req 0 " + (d.hex() or "-")])[0]
+                if n0 == e and n0 != n:
+                    line = "req %d %s" % (p_, d.hex() or "-")
+                    res["violations"].append({"template": "read segmentation", "replay": {"request": line, "text": d.decode("latin-1"), "native_dev": n, "native_release": mengine.native_eval(exe_rel, [line])[0],
+                                                                                          "expected": n0, "failed": "the result depends on how the bytes are split across reads (read plan %d vs all-at-once)" % p_, "template": "segmentation", "segmentation": True}})
+                    return res
         res["machinery"].append("translator validation: engine and native parser disagree on %d/%d requests, e.g. %s" % (len(mism), len(reqs), json.dumps(mism[0])[:400]))
         return res
     names = sorted(templates(tier))
@@ -474,6 +484,14 @@ def replay(d, path):
     exe_rel = mengine.build_mtool("release")
     r = d["replay"]
     nd, nr = mengine.native_eval(exe, [r["request"]])[0], mengine.native_eval(exe_rel, [r["request"]])[0]
+    if r.get("segmentation"):
+        whole = mengine.native_eval(exe, ["req 0 " + r["request"].split()[2]])[0]
+        log("replay %r under read plan %s: %s ; all-at-once: %s" % (r.get("text", "")[:120], r["request"].split()[1], nd[:200], whole[:200]))
+        if nd != whole or nr != whole:
+            log("VIOLATION property=C02 replay=%s" % path)
+            return 1
+        log("not reproduced on the current tree")
+        return 0
     data = bytes.fromhex(r["request"].split()[2]) if r["request"].split()[2] != "-" else b""
     exp = py_parse(data)
     want = fmt_expected(exp) if exp else None
